@@ -7,8 +7,10 @@
                                                                reference resolution + `roughly` preservation)
      merge_schema_object                  merge.rs:145-230    [merge_so]  (+ the validate.rs enum filter)
      merge_so_enum_values                 merge.rs:232-267    [merge_enum]
-     try_merge_with_subschemas            merge.rs:272-356    [with_subs]  allOf fold, `not` true/false,
+     try_merge_with_subschemas            merge.rs:272-356    [with_subs]  allOf fold, `not` via [merge_not],
                                                                anyOf/oneOf via try_merge_with_each_subschema
+     try_merge_schema_not,
+     try_merge_with_subschemas_not        merge.rs:423-605    [merge_not, set_false, mrg_all]
      try_merge_with_each_subschema        merge.rs:358-416    [each_sub]
      merge_so_instance_type               merge.rs:610-657    [merge_ty]
      merge_so_format                      merge.rs:671-685    [merge_fmt]
@@ -461,6 +463,66 @@ Section Merge.
       SObj None None None None numv_none strv_none ItemsAbsent [] None None None false
            [] [] None None None None (Some l) None None None None None.
 
+    (* try_merge_all one level down (the `not: {allOf: [..]}` arm) *)
+    Definition mrg_all (l : list schema) : mres schema :=
+      match l with
+      | [] => MPanic
+      | [only] => MOk only
+      | first :: second :: rest =>
+          fold_left (fun acc s => mbind acc (fun o => mrg o s)) rest (mrg first second)
+      end.
+
+    (* properties.insert(name, Schema::Bool(false)) on a BTreeMap *)
+    Fixpoint set_false (k : ustring) (ps : list (ustring * schema)) : list (ustring * schema) :=
+      match ps with
+      | [] => [(k, SBool false)]
+      | (k', s) :: r => if ustr_eqb k k' then (k', SBool false) :: r else (k', s) :: set_false k r
+      end.
+
+    (* try_merge_schema_not (merge.rs:423-510) + try_merge_with_subschemas_not (512-605): "subtract" the not-schema.
+       Only `required` of the negated object validation is looked at (finding C09-F3); the negated type / enum /
+       number / string / array keywords are ignored.  [k]: nesting bound of the model (not: allOf: not: ..). *)
+    Fixpoint merge_not (k : nat) (so n : schema) {struct k} : mres schema :=
+      match k with
+      | O => MUnsupp
+      | S k' =>
+          match n with
+          | SBool true => MNever
+          | SBool false => MOk so
+          | SObj _ _ _ _ _ _ _ _ _ _ _ _ nprops nreq nap nmnp nmxp nallo nanyo noneo nno _ _ _ =>
+              let step1 :=
+                if obj_absent nprops nreq nap nmnp nmxp then MOk so else
+                match so with
+                | SObj ty fmt enum cst nv sv ik items ai mni mxi uq props req ap mnp mxp allo anyo oneo no ref d t =>
+                    if obj_absent props req ap mnp mxp then MOk so
+                    else if existsb (fun r => mem_ustr r req) nreq then MNever
+                    else MOk (SObj ty fmt enum cst nv sv ik items ai mni mxi uq
+                                   (fold_left (fun ps r => set_false r ps) nreq props) req ap mnp mxp
+                                   allo anyo oneo no ref d t)
+                | SBool _ => MOk so
+                end in
+              mbind step1 (fun so1 =>
+                match nallo, nanyo, noneo, nno with
+                | None, None, None, None => MOk so1
+                | None, Some any, None, None =>
+                    match sch_ref so1 with
+                    | Some _ => MPanic                       (* merge_schema_object asserts reference.is_none() *)
+                    | None => mrg so1 (SAllOf (map SNot any))
+                    end
+                | None, None, None, Some n' => mbind (mrg so1 n') (fun r => MOk (into_obj r))
+                | None, None, Some _, None => MOk so1        (* "this is a kludge" *)
+                | Some all, None, None, None =>
+                    match mrg_all all with
+                    | MOk m => merge_not k' so1 m
+                    | MNever => MOk so1                      (* not(unsatisfiable) = everything *)
+                    | MPanic => MPanic
+                    | MUnsupp => MUnsupp
+                    end
+                | _, _, _, _ => MPanic                       (* todo!() *)
+                end)
+          end
+      end.
+
     (* try_merge_with_subschemas (if/then/else are not represented in Spec/Schema.v) *)
     Definition with_subs (so : schema) (allo anyo oneo : option (list schema)) (no : option schema) : mres schema :=
       if is_none allo && is_none anyo && is_none oneo && is_none no then MOk so else
@@ -471,9 +533,7 @@ Section Merge.
              end) (fun so1 =>
       mbind (match no with
              | None => MOk so1
-             | Some (SBool true) => MNever
-             | Some (SBool false) => MOk so1
-             | Some _ => MUnsupp
+             | Some n => merge_not 6 so1 n
              end) (fun so2 =>
       match anyo, oneo with
       | Some _, Some _ => MPanic
